@@ -221,6 +221,43 @@ func vfH_C15_multi(tier int) {
 	vfReach("C15_multi/ok")
 }
 
+// the character(s) between the keyword (or '=') and the password literal: whatever the lexer accepts
+// as a separator there (any Unicode scalar value is tried), Sanitize must treat as one too
+func vfH_C15_separator(tier int) {
+	r := vfRune()
+	vfAssume(r > 0)
+	vfAssume(r <= 0x10FFFF)
+	vfAssume(vfOr(r < 0xD800, r > 0xDFFF))
+	c := vfPlainChar('\'')
+	vfAssume(c != ' ')
+	vfAssume(c != '\t')
+	vfAssume(c != '\f')
+	vfAssume(c != '\v')
+	vfAssume(c != '"')
+	pw := "'" + string([]byte{c}) + "x'"
+	sep := string(r)
+	var head string
+	switch vfChoice(4) {
+	case 0:
+		head = "CREATE USER u WITH PASSWORD" + sep
+	case 1:
+		head = "SET PASSWORD FOR u = " + sep
+	case 2:
+		head = "SET PASSWORD FOR u =" + sep
+	default:
+		head = "CREATE USER u WITH" + sep + "PASSWORD "
+	}
+	text := head + pw + " "
+	vfNoteRunes("separator", []rune{r})
+	if _, err := ParseQuery(text); err != nil {
+		vfReach("C15_separator/rejected")
+		return
+	}
+	got := Sanitize(text)
+	vfAssert(got == head+"[REDACTED] ", "C15/separator/password-after-any-accepted-separator-is-redacted")
+	vfReach("C15_separator/ok")
+}
+
 // text without a password clause is returned unchanged
 func vfH_C15_unchanged(tier int) {
 	var text string
